@@ -114,7 +114,7 @@ STALE_ON_HEAD = ('C08_r10a', 'C08_r11p', 'C08_r4y', 'C13_r8f', 'C14_r7e')
 def base_commit(sid):
     """the /repo commit the change was written against (tools/seedrun.py builds its scratch worktree there when the patch no longer
     applies on HEAD): rounds 1-12 precede fix 779fc27, which rewrote CompiledTemplateManager.get_or_compile"""
-    return '779fc27' if sid.endswith('_r13u') else 'e2a4af4'
+    return '779fc27' if sid.endswith('_r13u') or '_r14' in sid else 'e2a4af4'
 
 
 def from_notes(d):
@@ -207,7 +207,7 @@ def main(argv):
         fh.write('Each change was written by a fresh sub-agent that saw only the property text; each keeps the repository\'s\n'
                  '45 tests green. "first pass" = whether the property\'s own check (quick tier) caught it before any\n'
                  'strengthening; "caught by" = quick-tier checks reporting VIOLATION now (`tools/seedmatrix.sh`).\n\n')
-        fh.write('Patches apply on the /repo commit named as `base_commit` in their meta.json (rounds 1-12: e2a4af4, round 13: 779fc27). After fix '
+        fh.write('Patches apply on the /repo commit named as `base_commit` in their meta.json (rounds 1-12: e2a4af4, rounds 13-14: 779fc27). After fix '
                  '779fc27 rewrote `CompiledTemplateManager.get_or_compile`, these no longer apply on HEAD and are run on their base commit: '
                  + ', '.join(STALE_ON_HEAD) + '.\n\n')
         fh.write('| id | change | needs | first pass | caught by (quick) |\n|----|--------|-------|-----------|-------------------|\n')
